@@ -187,3 +187,214 @@ def run(chk, prefix, prog, cfgname):
                                     'arrays %s are filled side by side with one subscript but are allocated with different extents %s'
                                     % (sorted(names.values()), {names[v]: sorted(e) for v, e in exts.items() if v in names}), cfgname=cfgname)
     return nunits
+
+
+# ---------------------------------------------------------------- Matrix Market header keyword, symmetric expansion capacity
+def _strcmp_lits(f):
+    """[(variable name, literal, node)] for every strcmp(var, "lit") in f"""
+    out = []
+    for x in f.body.walk():
+        if x.k == 'Call' and callee_name(x) == 'strcmp' and len(x.c) == 3:
+            a, b = strip(x.c[1]), strip(x.c[2])
+            if a.k == 'Ref' and b.k == 'Str':
+                out.append((a.a['name'], b.a['value'].strip('"'), x))
+    return out
+
+
+def mm_header_rule(chk, cid, prog, cfgname):
+    """?readMM: the arithmetic keyword that lets a file through must be the one of the routine's own data type
+    (real for s/d, complex for c/z): the accepting test is `if (strcmp(arith, K)) { ...every branch exits... }`."""
+    from ..cfg import NORETURN
+    chk.clause(cid, 'Matrix Market readers accept the arithmetic keyword of their own data type')
+    n = 0
+    for p in 'sdcz':
+        f = prog.func(p + 'readMM')
+        if f is None:
+            from ..run import AnalysisBroken
+            raise AnalysisBroken('%sreadMM not found' % p)
+        want = 'real' if p in 'sd' else 'complex'
+        acc = None
+        for x in f.body.walk():
+            if x.k == 'If':
+                c = strip(x.c[0])
+                if c.k == 'Call' and callee_name(c) == 'strcmp' and strip(c.c[1]).k == 'Ref' and strip(c.c[1]).a['name'] == 'arith' and strip(c.c[2]).k == 'Str':
+                    # rejecting block: no path through it falls out (every leaf statement list ends in exit)
+                    if _all_paths_exit(x.c[1]) and acc is None:
+                        acc = (strip(c.c[2]).a['value'].strip('"'), x)
+        n += 1
+        inst = '%sreadMM:accepted-arithmetic' % p
+        if acc is not None and acc[0] == want:
+            chk.ok(cid, inst, sample='files are rejected unless arith == "%s"' % acc[0])
+        else:
+            chk.violate(cid, inst, loc(f, acc[1] if acc else f.body), f.name,
+                        'a %s reader must let through exactly the files whose header says "%s"; the accepting test is on "%s"'
+                        % ({'s': 'single-precision real', 'd': 'double-precision real', 'c': 'single-precision complex', 'z': 'double-precision complex'}[p],
+                           want, acc[0] if acc else 'nothing'), cfgname=cfgname)
+    return n
+
+
+def _all_paths_exit(s):
+    s = strip(s) if s.k not in ('Block', 'If') else s
+    if s.k == 'Block':
+        return bool(s.c) and _all_paths_exit(s.c[-1])
+    if s.k == 'If':
+        return len(s.c) > 2 and _all_paths_exit(s.c[1]) and _all_paths_exit(s.c[2])
+    if s.k == 'Call':
+        return callee_name(s) in ('exit', 'abort', 'superlu_abort_and_exit')
+    if s.k == 'Return':
+        return True
+    return False
+
+
+def _defs_of(f, vid):
+    out = []
+    for x in f.body.walk():
+        if x.k == 'Assign' and x.a['op'] == '=' and strip(x.c[0]).k == 'Ref' and strip(x.c[0]).a.get('id') == vid:
+            out.append(x)
+        if x.k == 'Var' and x.a.get('id') == vid and x.c:
+            out.append(x)
+    return out
+
+
+def _terms(e, sign=1):
+    """flatten a +/- expression into [(sign, node)]"""
+    e = strip(e)
+    if e.k == 'Binary' and e.a['op'] in ('+', '-'):
+        return _terms(e.c[0], sign) + _terms(e.c[1], sign if e.a['op'] == '+' else -sign)
+    return [(sign, e)]
+
+
+def _is_twice_count(e, cnt_texts):
+    e = strip(e)
+    if e.k == 'Binary' and e.a['op'] == '*':
+        a, b = strip(e.c[0]), strip(e.c[1])
+        if const_value(a) == 2 and canon(b, ids=False) in cnt_texts:
+            return True
+        if const_value(b) == 2 and canon(a, ids=False) in cnt_texts:
+            return True
+    return False
+
+
+def _counts_diagonal(f, vid):
+    """vid is only ever set to 0 and incremented under an equality test of a row index against a column index inside a loop"""
+    incs = [x for x in f.body.walk() if x.k == 'Unary' and x.a['op'] in ('++',) and strip(x.c[0]).k == 'Ref' and strip(x.c[0]).a.get('id') == vid]
+    defs = _defs_of(f, vid)
+    if not incs or any(const_value(d.c[1] if d.k == 'Assign' else d.c[0]) != 0 for d in defs):
+        return False
+    others = [x for x in f.body.walk() if x.k == 'Assign' and x.a['op'] != '=' and strip(x.c[0]).k == 'Ref' and strip(x.c[0]).a.get('id') == vid]
+    if others:
+        return False
+    guarded = 0
+    for x in f.body.walk():
+        if x.k == 'If' and strip(x.c[0]).k == 'Binary' and strip(x.c[0]).a['op'] == '==' and len(x.c) == 2:
+            if any(y is i for y in x.c[1].walk() for i in incs):
+                guarded += 1
+    return guarded == len(incs)
+
+
+def expansion_capacity_rule(chk, cid, prog, cfgname):
+    """Symmetric storage holds one triangle; the full matrix has 2*nnz - d entries where d is the number of stored diagonal entries (0 <= d <= n,
+    known only from the data).  The arrays that receive the expansion are written without a bound test, so their extent must be 2*nnz minus a
+    *counted* number of diagonal entries, or the upper bound 2*nnz - never a closed form such as 2*nnz - n."""
+    chk.clause(cid, 'arrays receiving the symmetric expansion are large enough whatever part of the diagonal is stored')
+    n = 0
+    targets = []
+    for u in prog.units:
+        if not READER_UNITS_PAT.search(u.rel):
+            continue
+        for f in u.funcs:
+            if f.name == 'FormFullA':
+                targets.append((u, f, 'new_nnz', {'(*nonz)', 'nonz[0]'}))
+            elif f.name.endswith('readMM'):
+                targets.append((u, f, 'new_nonz', {'(*nonz)', 'nonz[0]'}))
+    for (u, f, vname, cnt) in targets:
+        chk.saw(unit=u.rel, func=u.rel + ':' + f.name)
+        vid = next((k for k, v in f.locals.items() if v.a.get('name') == vname), None)
+        inst = '%s:%s:expansion-extent' % (u.rel, f.name)
+        n += 1
+        if vid is None:
+            chk.violate(cid, inst, loc(f, f.body), f.name, 'cannot find the extent variable `%s` of the expanded arrays' % vname, cfgname=cfgname)
+            continue
+        bad = None
+        sample = ''
+        nexp = 0
+        for d in _defs_of(f, vid):
+            rhs = d.c[1] if d.k == 'Assign' else d.c[0]
+            ts = _terms(rhs)
+            twice = [t for (s, t) in ts if s > 0 and _is_twice_count(t, cnt)]
+            if not twice:
+                continue        # the non-symmetric definition (new_nonz = *nonz)
+            nexp += 1
+            for (s, t) in ts:
+                if any(t is w for w in twice):
+                    continue
+                if s > 0:
+                    continue
+                # a subtracted term: must be a counted number of diagonal entries
+                if t.k == 'Ref' and t.a.get('id') and _counts_diagonal(f, t.a['id']):
+                    continue
+                if const_value(t) == 0:
+                    continue
+                bad = (d, t)
+            sample = pretty(rhs)[:60]
+        if nexp == 0:
+            chk.violate(cid, inst, loc(f, f.body), f.name, 'no definition of `%s` of the form 2*nnz - ... found' % vname, cfgname=cfgname)
+        elif bad is not None:
+            chk.violate(cid, inst, loc(f, bad[0]), f.name,
+                        'the expanded arrays are sized 2*nnz minus `%s`, which is not a count of the diagonal entries actually stored: a symmetric file with '
+                        'fewer stored diagonal entries overruns them (and the reported nonzero count is wrong)' % pretty(bad[1])[:40], cfgname=cfgname)
+        else:
+            chk.ok(cid, inst, sample=sample)
+    if n < 12:
+        from ..run import AnalysisBroken
+        raise AnalysisBroken('expansion_capacity_rule: %d sites, expected 12' % n)
+    return n
+
+
+def field_slice_rule(chk, cid, prog, cfgname):
+    """ReadVector / ?ReadValues cut each line into `perline` fields of `persize` characters.  Everything done to field j - saving and restoring the
+    character behind it, rewriting a Fortran D exponent, the atoi/atof conversion - must address the slice of field j: inside the per-field
+    loop every subscript of the line buffer has to depend on the field counter (directly or through a local computed from it)."""
+    chk.clause(cid, 'per-field accesses to the line buffer address the slice of the current field')
+    n = 0
+    for u in prog.units:
+        if not re.search(r'SRC/[sdcz]read(hb|rb)\.c$', u.rel):
+            continue
+        for f in u.funcs:
+            if not (f.name == 'ReadVector' or f.name.endswith('ReadValues')):
+                continue
+            chk.saw(unit=u.rel, func=u.rel + ':' + f.name)
+            for lp in f.body.walk():
+                if lp.k != 'For':
+                    continue
+                cond = strip(lp.c[1])
+                if 'perline' not in canon(cond, ids=False):
+                    continue
+                init = strip(lp.c[0])
+                if not (init.k == 'Assign' and strip(init.c[0]).k == 'Ref'):
+                    continue
+                jv = strip(init.c[0]).a['id']
+                dep = {jv}
+                changed = True
+                while changed:
+                    changed = False
+                    for x in lp.c[3].walk():
+                        if x.k == 'Assign' and x.a['op'] == '=' and strip(x.c[0]).k == 'Ref' and strip(x.c[0]).a.get('id') not in dep:
+                            if any(y.k == 'Ref' and y.a.get('id') in dep for y in x.c[1].walk()):
+                                # only locals defined once inside the loop body count (s = j*persize)
+                                dep.add(strip(x.c[0]).a['id'])
+                                changed = True
+                for x in lp.c[3].walk():
+                    if x.k == 'Index' and strip(x.c[0]).k == 'Ref' and strip(x.c[0]).a['name'] == 'buf':
+                        n += 1
+                        inst = '%s:%s:slice@%s' % (u.rel, f.name, pretty(x)[:28])
+                        if any(y.k == 'Ref' and y.a.get('id') in dep for y in x.c[1].walk()):
+                            chk.ok(cid, inst)
+                        else:
+                            chk.violate(cid, inst, loc(f, x), f.name,
+                                        '`%s` inside the per-field loop does not depend on the field counter: it addresses the same characters for every '
+                                        'field of the line instead of the slice of field j' % pretty(x)[:40], cfgname=cfgname)
+    if n < 8 * 8:
+        from ..run import AnalysisBroken
+        raise AnalysisBroken('field_slice_rule: %d buffer accesses, floor 64' % n)
+    return n
